@@ -21,11 +21,21 @@ pub struct Opts {
     pub perm: Option<u32>,
     pub large: bool,
     pub password: Option<Hex>,
+    /// when set, the entry is created through the deprecated path-taking call (`start_file_from_path` /
+    /// `add_directory_from_path`) with this path; the op's `name` is what the harness's own reading of
+    /// "ordinary components joined by '/'" makes of it (computed when the case is generated)
+    #[serde(default)]
+    pub via_path: Option<String>,
+}
+
+/// the documented meaning of the path-taking calls, written independently: ordinary components, joined by '/'
+pub fn path_components_joined(p: &str) -> String {
+    p.split('/').filter(|c| !c.is_empty() && *c != "." && *c != "..").collect::<Vec<_>>().join("/")
 }
 
 impl Default for Opts {
     fn default() -> Opts {
-        Opts { method: 0, level: None, dos: (0x21, 0), ctor: None, perm: None, large: false, password: None }
+        Opts { method: 0, level: None, dos: (0x21, 0), ctor: None, perm: None, large: false, password: None, via_path: None }
     }
 }
 
@@ -222,7 +232,14 @@ pub fn run_program(ops: &[Op], env: &ExecEnv) -> ExecOut {
                 }
             }
             _ if w.is_none() => Res::Err("NoWriter".into()),
-            Op::StartFile { name, o } => match w.as_mut().unwrap().start_file(name.clone(), o.to_file_options()) {
+            Op::StartFile { name, o } => match {
+                let wr = w.as_mut().unwrap();
+                match &o.via_path {
+                    #[allow(deprecated)]
+                    Some(p) => wr.start_file_from_path(std::path::Path::new(p), o.to_file_options()),
+                    None => wr.start_file(name.clone(), o.to_file_options()),
+                }
+            } {
                 Ok(()) => Res::Ok(0),
                 Err(e) => Res::Err(zerr(&e)),
             },
@@ -292,7 +309,14 @@ pub fn run_program(ops: &[Op], env: &ExecEnv) -> ExecOut {
                 Ok(n) => Res::Ok(n),
                 Err(e) => Res::Err(zerr(&e)),
             },
-            Op::AddDir { name, o } => match w.as_mut().unwrap().add_directory(name.clone(), o.to_file_options()) {
+            Op::AddDir { name, o } => match {
+                let wr = w.as_mut().unwrap();
+                match &o.via_path {
+                    #[allow(deprecated)]
+                    Some(p) => wr.add_directory_from_path(std::path::Path::new(p), o.to_file_options()),
+                    None => wr.add_directory(name.clone(), o.to_file_options()),
+                }
+            } {
                 Ok(()) => Res::Ok(0),
                 Err(e) => Res::Err(zerr(&e)),
             },
@@ -527,6 +551,7 @@ pub fn gen_opts(r: &mut Rng, methods: &[u16]) -> Opts {
         perm: if r.chance(1, 2) { Some(if r.chance(1, 8) { r.below(1 << 18) as u32 } else { r.below(512) as u32 }) } else { None },
         large: r.chance(1, 6),
         password: None,
+        via_path: None,
     }
 }
 
